@@ -6,6 +6,7 @@ import (
 
 	"github.com/talostrading/sonic/codec/websocket"
 
+	shimnet "sonicverif/shim/net"
 	"sonicverif/sim"
 )
 
@@ -286,6 +287,11 @@ func runC16(c *Ctx, variant int) {
 	d.ws.SetMaxMessageSize(d.max)
 	if transport == 0 {
 		d.connect()
+		if variant < 0 && w.Chance(1, 3) {
+			// after the handshake (net/http rightly refuses a writer that accepts a prefix without an error): the
+			// transport under the adapter accepts writes in parts
+			shimnet.ShortWrites = true
+		}
 		d.srv.end.SetCaps(1<<30, 1<<30)
 	} else {
 		d.attach()
